@@ -1318,6 +1318,7 @@ pub fn run(spec: &WorkerSpec) -> WorkerResult {
             None => w(|w| w.violate("C11", "no_detach_syscall", "detach returned without PTRACE_DETACH".into())),
         }
         let t0 = std::time::Instant::now();
+        let mut zombie_spins = 0u32;
         loop {
             // threads that had exited before the detach are still this process's to reap (it was
             // their tracer); the leader's status arrives once they are gone
@@ -1335,20 +1336,44 @@ pub fn run(spec: &WorkerSpec) -> WorkerResult {
             }
             let moved = w(|w| {
                 // every task must be asleep at its gate or gone before the next release
-                let tasks = w.tasks_checked();
-                let quiet = tasks.iter().all(|&t| {
-                    let st = ns::task_state(w.pid, t);
-                    matches!(st, 'Z' | 'X') || (st == 'S' && w.idx_of(t).map(|i| w.parked(i)).unwrap_or(false))
-                });
-                if !quiet {
+                // (the task list and the states are not one atomic snapshot: a thread created
+                // between the two reads would be missed, so every spawned thread must have
+                // registered itself, and two consecutive observations must be identical)
+                if !(0..w.nspawned.min(MAX_THREADS)).all(|i| w.ctl.get(W_TID + i) != 0) {
                     return false;
                 }
+                let observe = |w: &MtWorld| -> Option<Vec<(i32, char, u32, u32)>> {
+                    let tasks = w.tasks_checked();
+                    let mut obs = vec![];
+                    for &t in &tasks {
+                        let st = ns::task_state(w.pid, t);
+                        let i = w.idx_of(t);
+                        let quiet = matches!(st, 'Z' | 'X') || (st == 'S' && i.map(|i| w.parked(i)).unwrap_or(false));
+                        if !quiet {
+                            return None;
+                        }
+                        obs.push((t, st, i.map(|i| w.ctl.get(W_TICKET + i)).unwrap_or(0), i.map(|i| w.ctl.get(W_PHASE + i)).unwrap_or(0)));
+                    }
+                    Some(obs)
+                };
+                let Some(o1) = observe(w) else { return false };
+                let Some(o2) = observe(w) else { return false };
+                // exiting threads (zombies on their way out of the list) settle first
+                if o1 != o2 {
+                    return false;
+                }
+                if o1.iter().any(|x| matches!(x.1, 'Z' | 'X') && x.0 != w.pid) && zombie_spins < 20_000 {
+                    zombie_spins += 1;
+                    return false;
+                }
+                zombie_spins = 0;
                 let r = w.runnable();
                 if r.is_empty() {
                     return false;
                 }
                 let i = if r.len() == 1 { r[0] } else { r[w.tape.choose(r.len())] };
-                w.advance(i, "[after detach]");
+                let why = format!("[after detach, of {:?}]", r);
+                w.advance(i, &why);
                 true
             });
             if !moved {
